@@ -585,6 +585,22 @@ func c18seededTx(c *vf.Ctx) (*wire.MsgTx, string) {
 			base[k] = c18bytePool[r.Intn(len(c18bytePool))]
 		}
 	}
+	template := r.Chance(1, 4)
+	if template {
+		// a standard script form around a random hash / key: outputs of one
+		// transaction then differ in the pushed data or only in the opcodes
+		// before / after it
+		switch r.Intn(5) {
+		case 0, 1: // P2PKH
+			base = append(append([]byte{0x76, 0xa9, 0x14}, r.Bytes(20)...), 0x88, 0xac)
+		case 2: // P2SH
+			base = append(append([]byte{0xa9, 0x14}, r.Bytes(20)...), 0x87)
+		case 3: // P2PK
+			base = append(append([]byte{0x21, 0x02 + byte(r.Intn(2))}, r.Bytes(32)...), 0xac)
+		default: // P2SH32
+			base = append(append([]byte{0xaa, 0x20}, r.Bytes(32)...), 0x87)
+		}
+	}
 	amts := make([]int64, 1+r.Intn(4))
 	for k := range amts {
 		if r.Chance(2, 3) {
@@ -620,7 +636,19 @@ func c18seededTx(c *vf.Ctx) (*wire.MsgTx, string) {
 		case 3: // one byte changed
 			s = append([]byte{}, base...)
 			if len(s) > 0 {
-				s[r.Intn(len(s))] = c18bytePool[r.Intn(len(c18bytePool))]
+				p := r.Intn(len(s))
+				if template && r.Bool() { // the opcodes around the pushed data
+					edge := []int{0, 1, 2, len(s) - 2, len(s) - 1}
+					p = edge[r.Intn(len(edge))]
+				}
+				switch r.Intn(3) {
+				case 0:
+					s[p]++
+				case 1:
+					s[p]--
+				default:
+					s[p] = c18bytePool[r.Intn(len(c18bytePool))]
+				}
 			}
 		case 4:
 			s = append([]byte{}, base...)
@@ -684,6 +712,9 @@ func c18seededTx(c *vf.Ctx) (*wire.MsgTx, string) {
 	if withTokens {
 		name += "+tokens"
 	}
+	if template {
+		name += "+standard-script-forms"
+	}
 	return tx, name
 }
 
@@ -739,6 +770,14 @@ func c18countTies(c *vf.Ctx, tx *wire.MsgTx) {
 			c.Inc("adjacent_outputs_same_amount_script_is_prefix")
 		default:
 			c.Inc("adjacent_outputs_same_amount_script_decides")
+			if len(a) == len(b) && len(a) >= 22 {
+				switch {
+				case bytes.Equal(a[:len(a)-2], b[:len(b)-2]):
+					c.Inc("adjacent_outputs_same_amount_scripts_differ_in_last_2_bytes_only")
+				case bytes.Equal(a[3:], b[3:]):
+					c.Inc("adjacent_outputs_same_amount_scripts_differ_in_first_3_bytes_only")
+				}
+			}
 		}
 	}
 	for _, o := range tx.TxOut {
